@@ -12,8 +12,8 @@ RULE = ("seeded maps as C06 plus tied maxima in non-rectangular arrangements, co
 ASSUMPTIONS = ["|values| <= 100, integral_patch_size >= 2", "refinement bound asserted for thresholds >= 0",
                "Gaussian-improvement claim checked per axis with tolerance 1e-3 px on isolated unit-amplitude bumps whose patch lies inside the map"]
 SHARDS = {"quick": 4, "thorough": 16}
-N = {"quick": 2400, "thorough": 360000}
-BUDGET = {"quick": 100, "thorough": 900}
+N = {"quick": 4800, "thorough": 1080000}
+BUDGET = {"quick": 100, "thorough": 600}
 TIMEOUT = {"quick": 600, "thorough": 2400}
 SELF_SHARDED = True
 KEY_MIXED = "integral-refinement-unbounded-on-mixed-sign-patch"
